@@ -21,6 +21,7 @@ mkdir -p theories/Gen
 /venv/bin/python ../translator/py2gallina_lookup.py "$REPO" theories/Gen > /dev/null 2>&1   # writes theories/Gen/lookup.status itself
 /venv/bin/python ../translator/py2gallina_jobs.py "$REPO" theories/Gen > /dev/null 2>&1   # writes theories/Gen/jobs.status itself
 /venv/bin/python ../translator/py2gallina_pair.py "$REPO" theories/Gen > /dev/null 2>&1   # writes theories/Gen/pair.status itself
+/venv/bin/python ../translator/py2gallina_flow.py "$REPO" theories/Gen > /dev/null 2>&1   # writes theories/Gen/flow.status itself
 /venv/bin/python ../translator/py2gallina_cf.py "$REPO" theories/Gen > /dev/null 2>&1   # writes theories/Gen/cf_<fragment>.status itself
 { cat _CoqProject.in; find theories -name '*.v' | sort; } > _CoqProject.new
 cmp -s _CoqProject.new _CoqProject || { mv _CoqProject.new _CoqProject; coq_makefile -f _CoqProject -o Makefile >/dev/null || exit 4; }
@@ -29,7 +30,7 @@ rm -f _CoqProject.new
 if [ $# -eq 0 ]; then
   timeout 1500 make -k -j16
   rc=$?
-  grep -h . theories/Gen/kernel.status theories/Gen/cache.status theories/Gen/cf_worker_run.status theories/Gen/cf_handle_chrome.status theories/Gen/revise.status theories/Gen/guards.status theories/Gen/reader.status theories/Gen/writers.status theories/Gen/store.status theories/Gen/overlap.status theories/Gen/merge.status theories/Gen/lookup.status theories/Gen/jobs.status theories/Gen/pair.status | grep -E "UNSUPPORTED|Traceback|^exit [1-9]" | head -5
+  grep -h . theories/Gen/kernel.status theories/Gen/cache.status theories/Gen/cf_worker_run.status theories/Gen/cf_handle_chrome.status theories/Gen/revise.status theories/Gen/guards.status theories/Gen/reader.status theories/Gen/writers.status theories/Gen/store.status theories/Gen/overlap.status theories/Gen/merge.status theories/Gen/lookup.status theories/Gen/jobs.status theories/Gen/pair.status theories/Gen/flow.status | grep -E "UNSUPPORTED|Traceback|^exit [1-9]" | head -5
   [ $rc -ne 0 ] && echo "build.sh: some files did not build (make status $rc); the checks of the properties resting on them will say so"
   exit 0
 fi
